@@ -17,3 +17,7 @@ Proof. reflexivity. Qed.
 Theorem C13_class_level_state : forall s, In s class_level_stores -> (let '(_, _, _, _, sh) := s in match sh with SSingleStore => true | _ => false end) = true.
 Proof. apply forallb_forall. vm_compute. reflexivity. Qed.
 Print Assumptions C13_class_level_state.
+(* the class-level tables are shared by every instance: no function of the library changes in place what a table getter (or the attribute
+   dictionary of a shared schema node) hands out - read from the source on every run (the same list as C20_tables_read_only) *)
+Theorem C13_tables_read_only : shared_table_mutations = [].
+Proof. reflexivity. Qed.
